@@ -466,7 +466,7 @@ func (f *frame) invEnv(st *State, pc string, hyp bool, li *loopInfo) *Env {
 	if li != nil && li.spec != nil {
 		for _, u := range li.spec.Uses {
 			// "use <int expr>" inside a loop block: an instantiation term for quantified invariants
-			if u.Op != "call" {
+			if !isAxiomUse(g, u) {
 				v := (&Env{g: g, st: st, old: g.entry, vars: vars, cells: e.cells, pc: pc, hyp: hyp, frame: f}).tr(u, true)
 				if v.So == "Int" && v.Ty != nil && isRefType(v.Ty) {
 					// "use <object expr>": an object the universal facts about references are used at
@@ -512,6 +512,12 @@ func (f *frame) loopHeader(li *loopInfo, pc string, st *State) string {
 	}
 	// establish
 	if li.spec != nil {
+		// axiom / lemma instances named in the loop block, at the values on entry
+		for _, u := range li.spec.Uses {
+			if isAxiomUse(g, u) {
+				g.useAxiom(f.invEnv(st, pc, true, li), u)
+			}
+		}
 		env := f.invEnv(st, pc, false, li)
 		for k, c := range li.spec.Invs {
 			if !g.wantClause(c) {
@@ -633,6 +639,14 @@ func (f *frame) loopHeader(li *loopInfo, pc string, st *State) string {
 		}
 	}
 	npc := g.s.def("pc.loop", T{and(append([]string{pc}, hyps...)...), "Bool"}).S
+	if li.spec != nil {
+		// ... and at the values of an arbitrary iteration
+		for _, u := range li.spec.Uses {
+			if isAxiomUse(g, u) {
+				g.useAxiom(f.invEnv(st, npc, true, li), u)
+			}
+		}
+	}
 	g.obs = append(g.obs, &Oblig{Name: fmt.Sprintf("%s#loop%d.cover", key, li.ord), Kind: "cover", PC: npc, Goal: "true", Clause: "the loop invariant is satisfiable at the loop head", Fn: key, Script: g.s, Cover: true})
 	return npc
 }
@@ -1174,4 +1188,17 @@ func (f *frame) paramCellMutable(p *ssa.Parameter, c *ssa.Alloc) bool {
 		}
 	}
 	return fromParam && stores > 1
+}
+
+// isAxiomUse: "use name(args)" / "use forall ... :: name(args)" with name an axiom or lemma (anything
+// else after "use" in a loop block is an instantiation term).
+func isAxiomUse(g *Gen, u *CE) bool {
+	if u.Op == "forall" {
+		return true
+	}
+	if u.Op == "call" && u.Args[0].Op == "ident" {
+		n := u.Args[0].Name
+		return g.Specs.Axioms[n] != nil || g.Specs.Lemmas[n] != nil
+	}
+	return false
 }
